@@ -76,17 +76,52 @@ func TestVerifC18SM2(t *testing.T) {
 		}
 	}
 	r.Note("table_points", len(es))
+	walk := func(phase string) {
+		hk.Parallel(len(es), func(i int) {
+			e := es[i]
+			want := ref.BaseMulFast(e.k)
+			gx, gy := montBig(e.x), montBig(e.y)
+			canonical := limbsBelowP(e.x) && limbsBelowP(e.y)
+			if want.Inf || gx.Cmp(want.X) != 0 || gy.Cmp(want.Y) != 0 || !canonical {
+				r.Violation("table-entry-wrong:"+tbls[e.t].name+":"+phase, hk.D{"entry": e.where, "phase": phase, "scalar": e.k.Text(16), "got_x": gx.Text(16), "got_y": gy.Text(16), "want": ptHex(want), "canonical_limbs": canonical})
+			}
+			r.Eval("table:" + tbls[e.t].name + fmt.Sprintf(":%d:%s", i%64, phase))
+		})
+	}
 	r.Sample(hk.D{"entry": es[100].where, "scalar": es[100].k.Text(16), "x_limbs": fmt.Sprint(*es[100].x)})
-	hk.Parallel(len(es), func(i int) {
-		e := es[i]
-		want := ref.BaseMulFast(e.k)
-		gx, gy := montBig(e.x), montBig(e.y)
-		canonical := limbsBelowP(e.x) && limbsBelowP(e.y)
-		if want.Inf || gx.Cmp(want.X) != 0 || gy.Cmp(want.Y) != 0 || !canonical {
-			r.Violation("table-entry-wrong:"+tbls[e.t].name, hk.D{"entry": e.where, "scalar": e.k.Text(16), "got_x": gx.Text(16), "got_y": gy.Text(16), "want": ptHex(want), "canonical_limbs": canonical})
+	walk("at-start")
+	// the tables are LIVE package state: use every routine that reads them with hostile but legal
+	// arguments (double-scalar multiplication with tiny / zero / one-hot scalars, all comb schemes,
+	// variable-point multiplication), then walk them again
+	{
+		rng := hk.NewRNG(hk.Seed(), "c18hostile")
+		P := fromRef(ref.BaseMulFast(randScalarI(rng)), bi(3))
+		small := []*big.Int{bi(0), bi(1), bi(2), bi(15), bi(16), bi(8191), new(big.Int).Lsh(bi(1), 13), new(big.Int).Lsh(bi(1), 14)}
+		for _, sv := range small {
+			for q := 0; q < 12; q++ {
+				g := rng.Bytes(32)
+				switch q % 4 {
+				case 1:
+					g = ref.B32(new(big.Int).Lsh(bi(int64(1+rng.Intn(63))), uint(4+rng.Intn(240))))
+				case 2:
+					g = make([]byte, 32)
+				}
+				hk.Try(func() { ScalarMixedMult_Unsafe(g, P, ref.B32(sv)) })
+			}
 		}
-		r.Eval("table:" + tbls[e.t].name + fmt.Sprintf(":%d", i%64))
-	})
+		for q := 0; q < 40; q++ {
+			k := rng.Bytes(32)
+			hk.Try(func() {
+				ScalarBaseMult(k)
+				scalarBaseMult_SkipBitExtraction_5_3_17(k)
+				scalarBaseMult_SkipBitExtraction_4_2_32(k)
+				scalarBaseMult_SkipBitExtraction_7_3_12(k)
+				ScalarMult(P, k)
+				ScalarMixedMult_Unsafe(k, P, rng.Bytes(32))
+			})
+		}
+	}
+	walk("after-hostile-use")
 	// curve constants used by the arithmetic
 	if g, _ := toRef(sm2G); !g.Eq(ref.G()) {
 		r.Violation("constant-wrong:sm2G", hk.D{})
